@@ -117,6 +117,18 @@ CLAIMED = {
             "classifier maps every written case back to its class, start and final marks read independently, one minimised "
             "box per head. Value-level round-trip "
             "equality is not decided."),
+    "C12": ("component-coverage dependence analysis with constant-mode specialisation of the shared fixpoint + worklist "
+            "pattern recogniser + branch-fact (guard) analysis of every yield + cache-field pairing",
+            "Static necessary conditions only (narrow claim): is_empty answers from the start symbol and the generating "
+            "set; the generating / nullable accessors run the shared counting fixpoint in the right constant mode, "
+            "terminals seed it in generating mode only, empty-body heads in both, each accessor returns what it stores "
+            "in its own cache field; get_reachable_symbols is a closure worklist from the start symbol over whole bodies "
+            "keyed by heads; is_finite builds its graph from the normal form with edges to both symbols of a binary body "
+            "and hands it to the cycle test; get_words yields the empty word under start-in-nullable for every bound, "
+            "other words only under an equality test with the start symbol, from loops over the normal form's "
+            "productions, never for bound 0, concatenated words under a membership test and a comparison with the bound. "
+            "NOT decided: the values of the fixpoints, the cycle test, the stopping rule, completeness and exactness of "
+            "the enumeration (DESIGN.md section 4, C12)."),
     "C19": ("effects-and-ownership analysis (mod/alias dataflow over a type-resolved call graph) with cache-discipline "
             "rules",
             "Static analysis over all paths of every public non-mutator method (per concrete receiver class, callees "
@@ -128,10 +140,7 @@ CLAIMED = {
             "decided."),
 }
 
-NOT_APPLICABLE = {
-    "C12": "every clause is the value of a fixpoint, of a cycle test or of a length-indexed enumeration with a numeric "
-           "stopping rule; no clause has a shape a sound static rule can check (DESIGN.md section 4, C12)",
-}
+NOT_APPLICABLE = {}
 
 
 def main():
